@@ -141,6 +141,7 @@ theorem keeps_evalInt (hI : StoreInv g I) (fuel : Nat) :
       | integer pv _ => exact ih pv
       | enumeration pv _ => exact ih pv
       | boolean _ _ _ => exact keeps_fail _
+      | ctls _ => exact keeps_fail _
       | reg r =>
         dsimp only
         cases r.kind with
@@ -181,6 +182,7 @@ theorem keeps_setInt (hI : StoreInv g I) (fuel : Nat) :
         refine keeps_bind (keeps_invBy hI n) (fun _ => ?_)
         exact keeps_bind (ih pv v) (fun _ => keeps_forEachM (fun c => ih c v) cs)
       | boolean _ _ _ => exact keeps_fail _
+      | ctls _ => exact keeps_fail _
       | enumeration pv vals =>
         dsimp only
         split
@@ -214,6 +216,97 @@ theorem keeps_ite {α : Type} {c : Prop} [Decidable c] {a b : M Store α} (ha : 
     (hb : Keeps I b) : Keeps I (if c then a else b) := by
   split <;> assumption
 
+theorem keeps_boolFromId (hI : StoreInv g I) (F : Nat) (c : NodeId) :
+    Keeps I (boolFromId defaultCache p g F c) := by
+  have hev := keeps_evalInt (p := p) hI F
+  unfold boolFromId
+  cases g[c]? with
+  | none => exact keeps_fail _
+  | some nd =>
+    cases nd with
+    | boolean pv on off =>
+      exact keeps_bind (hev pv) (fun _ => keeps_ite (keeps_pure _) (keeps_ite (keeps_pure _) (keeps_fail _)))
+    | integer _ _ => exact keeps_bind (hev c) (fun _ => keeps_pure _)
+    | reg r =>
+      dsimp only
+      cases r.kind with
+      | int _ _ => exact keeps_bind (hev c) (fun _ => keeps_pure _)
+      | masked _ _ _ _ => exact keeps_bind (hev c) (fun _ => keeps_pure _)
+      | _ => exact keeps_fail _
+    | _ => exact keeps_fail _
+
+theorem keeps_ctlVal (hI : StoreInv g I) (F : Nat) (o : Option NodeId) (d : Bool) :
+    Keeps I (ctlVal defaultCache p g F o d) := by
+  unfold ctlVal
+  cases o with
+  | none => exact keeps_pure _
+  | some c => exact keeps_boolFromId hI F c
+
+theorem keeps_baseReadable (hI : StoreInv g I) (F : Nat) (n : NodeId) :
+    Keeps I (baseReadable defaultCache p g F n) := by
+  unfold baseReadable
+  exact keeps_bind (keeps_ctlVal hI F _ _) (fun _ => keeps_ite (keeps_ctlVal hI F _ _) (keeps_pure _))
+
+theorem keeps_baseWritable (hI : StoreInv g I) (F : Nat) (n : NodeId) :
+    Keeps I (baseWritable defaultCache p g F n) := by
+  unfold baseWritable
+  refine keeps_bind (keeps_ctlVal hI F _ _) (fun _ => keeps_ite ?_ (keeps_pure _))
+  refine keeps_bind (keeps_ctlVal hI F _ _) (fun _ => keeps_ite ?_ (keeps_pure _))
+  exact keeps_bind (keeps_ctlVal hI F _ _) (fun _ => keeps_pure _)
+
+theorem keeps_isReadableI (hI : StoreInv g I) (F : Nat) (fuel : Nat) :
+    ∀ n, Keeps I (isReadableI defaultCache p g F fuel n) := by
+  induction fuel with
+  | zero => intro n; simp only [isReadableI]; exact keeps_panic
+  | succ f ih =>
+    intro n
+    simp only [isReadableI]
+    cases g[n]? with
+    | none => exact keeps_panic
+    | some nd =>
+      cases nd with
+      | integer pv _ =>
+        exact keeps_bind (keeps_baseReadable hI F n) (fun _ => keeps_ite (ih pv) (keeps_pure _))
+      | enumeration pv _ =>
+        exact keeps_bind (keeps_baseReadable hI F n) (fun _ => keeps_ite (ih pv) (keeps_pure _))
+      | reg r =>
+        dsimp only
+        cases r.kind with
+        | int _ _ => exact keeps_bind (keeps_baseReadable hI F n) (fun _ => keeps_pure _)
+        | masked _ _ _ _ => exact keeps_bind (keeps_baseReadable hI F n) (fun _ => keeps_pure _)
+        | _ => exact keeps_pure _
+      | _ => exact keeps_pure _
+
+theorem keeps_andAllM {f : NodeId → M Store Bool} (hf : ∀ c, Keeps I (f c)) (cs : List NodeId) :
+    ∀ b, Keeps I (andAllM f cs b) := by
+  induction cs with
+  | nil => intro b; exact keeps_pure _
+  | cons c cs ih => intro b; exact keeps_bind (hf c) (fun _ => ih _)
+
+theorem keeps_isWritableI (hI : StoreInv g I) (F : Nat) (fuel : Nat) :
+    ∀ n, Keeps I (isWritableI defaultCache p g F fuel n) := by
+  induction fuel with
+  | zero => intro n; simp only [isWritableI]; exact keeps_panic
+  | succ f ih =>
+    intro n
+    simp only [isWritableI]
+    cases g[n]? with
+    | none => exact keeps_panic
+    | some nd =>
+      cases nd with
+      | integer pv cs =>
+        refine keeps_bind (keeps_baseWritable hI F n) (fun _ => keeps_ite ?_ (keeps_pure _))
+        exact keeps_bind (ih pv) (fun x => keeps_andAllM ih cs x)
+      | enumeration pv _ =>
+        exact keeps_bind (keeps_baseWritable hI F n) (fun _ => keeps_ite (ih pv) (keeps_pure _))
+      | reg r =>
+        dsimp only
+        cases r.kind with
+        | int _ _ => exact keeps_bind (keeps_baseWritable hI F n) (fun _ => keeps_pure _)
+        | masked _ _ _ _ => exact keeps_bind (keeps_baseWritable hI F n) (fun _ => keeps_pure _)
+        | _ => exact keeps_pure _
+      | _ => exact keeps_pure _
+
 theorem keeps_evalOp (hI : StoreInv g I) (fuel : Nat) (op : Op) :
     Keeps I (evalOp defaultCache p g fuel op) := by
   have hev := keeps_evalInt (p := p) hI fuel
@@ -227,6 +320,7 @@ theorem keeps_evalOp (hI : StoreInv g I) (fuel : Nat) (op : Op) :
       cases nd with
       | port => exact keeps_fail _
       | command _ _ => exact keeps_fail _
+      | ctls _ => exact keeps_fail _
       | integer _ _ => exact keeps_bind (hev n) (fun _ => keeps_pure _)
       | enumeration _ _ => exact keeps_bind (hev n) (fun _ => keeps_pure _)
       | boolean pv on off =>
@@ -250,6 +344,7 @@ theorem keeps_evalOp (hI : StoreInv g I) (fuel : Nat) (op : Op) :
       cases nd with
       | port => exact keeps_fail _
       | command _ _ => exact keeps_fail _
+      | ctls _ => exact keeps_fail _
       | integer _ _ =>
         cases v <;> first | exact keeps_fail _ | exact keeps_bind (hset n _) (fun _ => keeps_pure _)
       | enumeration _ _ =>
@@ -311,12 +406,53 @@ theorem keeps_evalOp (hI : StoreInv g I) (fuel : Nat) (op : Op) :
     | some nd =>
       cases nd with
       | command pv cv =>
-        refine keeps_bind (keeps_invOf hI pv) (fun _ => keeps_bind (keeps_lift _) (fun rd => ?_))
+        refine keeps_bind (keeps_invOf hI pv) (fun _ => keeps_bind (keeps_isReadableI hI (fuel) fuel pv) (fun rd => ?_))
         exact keeps_ite (keeps_bind (hev pv) (fun _ => keeps_pure _)) (keeps_pure _)
       | _ => exact keeps_fail _
   | portRead n a l => exact keeps_bind (keeps_portRead n a l) (fun _ => keeps_pure _)
   | portWrite n a d => exact keeps_bind (keeps_portWrite hI n a d) (fun _ => keeps_pure _)
   | clearCache => exact keeps_bind (keeps_clearCache hI) (fun _ => keeps_pure _)
+  | isReadable n =>
+    simp only [evalOp, opIsReadable]
+    cases g[n]? with
+    | none => exact keeps_fail _
+    | some nd =>
+      cases nd with
+      | reg r =>
+        dsimp only
+        cases r.kind <;> first
+          | exact keeps_fail _
+          | exact keeps_bind (keeps_baseReadable hI fuel n) (fun _ => keeps_pure _)
+      | integer _ _ => exact keeps_bind (keeps_isReadableI hI fuel fuel n) (fun _ => keeps_pure _)
+      | enumeration _ _ => exact keeps_bind (keeps_isReadableI hI fuel fuel n) (fun _ => keeps_pure _)
+      | boolean pv _ _ =>
+        exact keeps_bind (keeps_baseReadable hI fuel n) (fun _ => keeps_ite
+          (keeps_bind (keeps_isReadableI hI fuel fuel pv) (fun _ => keeps_pure _)) (keeps_pure _))
+      | _ => exact keeps_fail _
+  | isWritable n =>
+    simp only [evalOp, opIsWritable]
+    have hfeat : ∀ pv, Keeps I
+        (do let b ← baseWritable defaultCache p g fuel n
+            if b then do
+              let x ← isWritableI defaultCache p g fuel fuel pv
+              M.pure (Val.bool x)
+            else M.pure (Val.bool false)) := fun pv =>
+      keeps_bind (keeps_baseWritable hI fuel n) (fun _ => keeps_ite
+        (keeps_bind (keeps_isWritableI hI fuel fuel pv) (fun _ => keeps_pure _)) (keeps_pure _))
+    cases g[n]? with
+    | none => exact keeps_fail _
+    | some nd =>
+      cases nd with
+      | reg r =>
+        dsimp only
+        cases r.kind <;> first
+          | exact keeps_fail _
+          | exact keeps_bind (keeps_baseWritable hI fuel n) (fun _ => keeps_pure _)
+      | integer _ _ => exact keeps_bind (keeps_isWritableI hI fuel fuel n) (fun _ => keeps_pure _)
+      | enumeration pv _ => exact hfeat pv
+      | boolean pv _ _ => exact hfeat pv
+      | command pv _ => exact hfeat pv
+      | _ => exact keeps_fail _
   | address n =>
     simp only [evalOp, opAddress]
     cases hn : g[n]? with
